@@ -115,7 +115,7 @@ func checkC02(c *vkit.Ctx) {
 	c.P.Rule = "case = (api, stored, received, colour, update-disabled mode); received is derived from stored by one small hostile edit (flip/insert/delete byte, trailing/leading newline, `---` <-> `/-/-/-/`, invalid-UTF-8 byte only, whitespace only, duplicate/delete/swap line; for JSON one leaf/member edit) and the premise `formatted texts differ` is asserted with the trusted formatters; non-trivial = every judged pair (they all differ by a minimal edit); distinct by hash(api, formatted stored, formatted received, colour)"
 	c.P.Assumptions = []string{"kr/pretty and tidwall/pretty are the formatters (trusted); the pair is judged only when their outputs differ"}
 	modes := offModes()
-	n := c.N(20000, 800000)
+	n := c.N(150000, 4000000)
 	for i := 0; i < n; i++ {
 		if !c.Mine(i) {
 			continue
